@@ -96,6 +96,10 @@ def _is_metadata_read(root, attr_node):
     for n in ast.walk(root):
         if isinstance(n, ast.Attribute) and n.attr in ("dtype", "device", "shape") and any(m is attr_node for m in ast.walk(n.value)):
             return True
+        # X.new_ones(shape) / new_zeros / new_full / new_empty: a fresh tensor with X's dtype and device - none of X's values
+        if isinstance(n, ast.Call) and isinstance(n.func, ast.Attribute) and n.func.attr in ("new_ones", "new_zeros", "new_full", "new_empty") \
+                and any(m is attr_node for m in ast.walk(n.func.value)):
+            return True
     return False
 
 
